@@ -29,10 +29,28 @@ var (
 	once    sync.Once
 	Session *packet.Session
 	devnull *os.File
-	Hangs   int
-	// BlockedSeen counts handler calls that returned but left the handler blocked (see GuardProbe)
-	BlockedSeen int
+	// HangsBy counts, per operation, the calls that did not return within the watchdog: every one
+	// leaves a spinning goroutine behind, so an operation is given up after HangBudget witnesses —
+	// the other operations go on (a hang in one decoder must not hide a defect in another).
+	HangsBy = map[string]int{}
+	// BlockedBy counts, per operation, handler calls that returned but left the handler blocked (see GuardProbe)
+	BlockedBy = map[string]int{}
 )
+
+// HangBudget is the number of hang witnesses taken per operation; TotalHangBudget bounds the
+// spinning goroutines of the whole run.
+const (
+	HangBudget      = 3
+	TotalHangBudget = 18
+)
+
+func totalHangs() int {
+	n := 0
+	for _, v := range HangsBy {
+		n += v
+	}
+	return n
+}
 
 // Skipped reports a result that was not observed at all because the run had already given up on
 // the watchdog (too many spinning goroutines left behind): such a case says nothing about its input.
@@ -49,12 +67,15 @@ func setup() {
 // Watchdog is how long a call may run before it is reported as a hang.
 var Watchdog = 2 * time.Second
 
-// Guard runs f with stdout silenced (the handlers print), converting panic and non-termination
-// into canonical outcomes.
-func Guard(f func() string) string {
+// Guard is GuardOp for callers without an operation name of their own.
+func Guard(f func() string) string { return GuardOp("misc", f) }
+
+// GuardOp runs f with stdout silenced (the handlers print), converting panic and non-termination
+// into canonical outcomes.  op is the operation the hang budget is charged to.
+func GuardOp(op string, f func() string) string {
 	setup()
-	if Hangs >= 6 {
-		// every hung call leaves a spinning goroutine behind; stop feeding them
+	if HangsBy[op] >= HangBudget || totalHangs() >= TotalHangBudget {
+		// every hung call leaves a spinning goroutine behind; stop feeding this operation
 		return "hang-skipped"
 	}
 	done := make(chan string, 1)
@@ -77,7 +98,7 @@ func Guard(f func() string) string {
 		case res = <-done:
 		case <-time.After(4 * Watchdog):
 			res = "hang"
-			Hangs++
+			HangsBy[op]++
 		}
 	}
 	os.Stdout = saved
@@ -114,14 +135,14 @@ func Probe(h *dn.DNSHandler) {
 
 // GuardProbe is Guard(f) followed, inside the same watchdog, by Probe(h).  When f returned r but
 // the probe did not return (or panicked) the outcome is r+Blocked.
-func GuardProbe(h *dn.DNSHandler, f func() string) string {
+func GuardProbe(op string, h *dn.DNSHandler, f func() string) string {
 	setup()
-	if BlockedSeen >= 3 {
-		// every blocked handler costs a full watchdog period; three witnesses are enough
-		return Guard(f)
+	if BlockedBy[op] >= 3 {
+		// every blocked handler costs a full watchdog period; three witnesses per operation are enough
+		return GuardOp(op, f)
 	}
 	var first atomic.Value
-	res := Guard(func() string {
+	res := GuardOp(op, func() string {
 		r := f()
 		first.Store(r)
 		Probe(h)
@@ -132,9 +153,9 @@ func GuardProbe(h *dn.DNSHandler, f func() string) string {
 			return r
 		}
 		if res == "hang" {
-			Hangs-- // the abandoned goroutine is parked on a lock, it does not spin
+			HangsBy[op]-- // the abandoned goroutine is parked on a lock, it does not spin
 		}
-		BlockedSeen++
+		BlockedBy[op]++
 		return r + Blocked
 	}
 	return res
@@ -172,7 +193,7 @@ func ErrName(err error) string {
 
 // DecodeName: canonical `ok <name> <end>` | `err X` | panic | hang
 func DecodeName(msg []byte, off int) string {
-	return Guard(func() string {
+	return GuardOp("dns.name", func() string {
 		buf := make([]byte, 0, 64)
 		n, end, err := packet.VerifDecodeName(Exact(msg), off, &buf, 1)
 		if err != nil {
@@ -183,7 +204,7 @@ func DecodeName(msg []byte, off int) string {
 }
 
 func DecodeQuestion(msg []byte, index int) string {
-	return Guard(func() string {
+	return GuardOp("dns.question", func() string {
 		q, off, err := packet.DecodeQuestion(Exact(msg), index, make([]byte, 0, 64))
 		if err != nil {
 			return "err " + ErrName(err)
@@ -218,10 +239,26 @@ func EntryStr(e packet.DNSEntry) string {
 		strings.Join(a, ";"), strings.Join(aaaa, ";"), strings.Join(cn, ";"), strings.Join(ptr, ";"))
 }
 
+// DecodeAnswersZero runs the exported DecodeAnswers on the zero DNSEntry (nil maps).
+func DecodeAnswersZero(off int, msg []byte) string {
+	var e packet.DNSEntry
+	res := GuardOp("dns.answers0", func() string {
+		o, upd, err := e.DecodeAnswers(Exact(msg), off, make([]byte, 0, 64))
+		if err != nil {
+			return "err " + ErrName(err)
+		}
+		return fmt.Sprintf("ok %d %v", o, upd)
+	})
+	if res == "panic" || strings.HasPrefix(res, "hang") {
+		return res
+	}
+	return res + " " + EntryStr(e)
+}
+
 // DecodeRRs runs decodeRRs (count given) or DecodeAnswers (count<0) on a fresh entry.
 func DecodeRRs(count int, off int, msg []byte) (string, packet.DNSEntry) {
 	e := packet.NewDNSEntry()
-	res := Guard(func() string {
+	res := GuardOp("dns.rrs", func() string {
 		var o int
 		var upd bool
 		var err error
@@ -277,7 +314,7 @@ func Process(payloads [][]byte) (string, map[string]packet.DNSEntry, bool) {
 		}
 		var frame packet.Frame
 		var perr error
-		r := GuardProbe(h, func() string {
+		r := GuardProbe("dns.process", h, func() string {
 			frame, perr = Session.Parse(fr)
 			if perr != nil {
 				return "noparse"
@@ -332,7 +369,7 @@ func MDNS(payload []byte) (string, []packet.IPNameEntry, []packet.IPNameEntry, b
 	}
 	h := dn.VerifNew(Session)
 	var v4, v6 []packet.IPNameEntry
-	r := GuardProbe(h, func() string {
+	r := GuardProbe("mdns", h, func() string {
 		frame, err := Session.Parse(fr)
 		if err != nil || len(frame.Payload()) != len(payload) {
 			return "noparse"
@@ -350,7 +387,7 @@ func MDNS(payload []byte) (string, []packet.IPNameEntry, []packet.IPNameEntry, b
 func NBNS(payload []byte) string {
 	setup()
 	h := dn.VerifNew(Session)
-	return GuardProbe(h, func() string {
+	return GuardProbe("nbns", h, func() string {
 		n, err := h.ProcessNBNS(nil, nil, Exact(payload))
 		return fmt.Sprintf("ok %s %s err=%v", core.Hex([]byte(n.Type)), core.Hex([]byte(n.Name)), err != nil)
 	})
@@ -365,7 +402,7 @@ const Slack = " | spare-capacity: "
 // differs it is appended after Slack.
 func NodeNames(b []byte) string {
 	run := func(buf []byte) string {
-		return Guard(func() string {
+		return GuardOp("nbns.names", func() string {
 			names, err := dn.VerifParseNodeNameArray(buf)
 			if err != nil {
 				return "err " + ErrName(err)
@@ -390,7 +427,7 @@ func NodeNames(b []byte) string {
 }
 
 func DecodeNBNSName(b []byte) string {
-	return Guard(func() string {
+	return GuardOp("nbns.decode", func() string {
 		n, name, err := dn.VerifDecodeNBNSName(Exact(b))
 		if err != nil {
 			return "err " + ErrName(err)
@@ -405,7 +442,7 @@ func SSDP(payload []byte) (kind string, secs int64, name packet.NameEntry, loc s
 	setup()
 	h := dn.VerifNew(Session)
 	before := time.Now()
-	kind = GuardProbe(h, func() string {
+	kind = GuardProbe("ssdp", h, func() string {
 		n, l, err := h.ProcessSSDP(nil, nil, Exact(payload))
 		name, loc = n, l
 		if err != nil {
@@ -420,11 +457,11 @@ func SSDP(payload []byte) (kind string, secs int64, name packet.NameEntry, loc s
 }
 
 func ParseTXT(txt []string) string {
-	return Guard(func() string { return "ok " + core.Hex([]byte(dn.VerifParseTXT(txt))) })
+	return GuardOp("mdns.txt", func() string { return "ok " + core.Hex([]byte(dn.VerifParseTXT(txt))) })
 }
 
 func EncodeName(name []byte, dataLen, off int) string {
-	return Guard(func() string {
+	return GuardOp("dns.encname", func() string {
 		data := make([]byte, dataLen)
 		n := packet.VerifEncodeName(Exact(name), data, off)
 		return fmt.Sprintf("ok %s %d", core.Hex(data), n)
@@ -432,7 +469,7 @@ func EncodeName(name []byte, dataLen, off int) string {
 }
 
 func EncodeQuery(id, flags uint16, name []byte, qt uint16) string {
-	return Guard(func() string {
+	return GuardOp("dns.encquery", func() string {
 		return "ok " + core.Hex(packet.EncodeDNSQuery(id, flags, Exact(name), qt))
 	})
 }
